@@ -29,7 +29,7 @@ const (
 func init() {
 	register(Property{ID: "C33", Level: "other", Run: runC33,
 		Technique: "static analysis: SSA path conditions and block-level pairing (typestate of the byte counter), who-may-write tables, lock-state dataflow",
-		Text:      "Decides on all paths of Reorderer.Push/flushUpTo: every insertion into pending is preceded by the subtraction of a replaced entry's payload size and followed in the same block by the addition of the inserted subgroup's size; every removal from pending is paired in the same block with the subtraction of the removed entry's size and with appending that entry to the output (so nothing delivered stays pending and nothing is delivered twice); after an insertion a return without a flush carries both ¬(len(pending) > MaxReordered) and ¬(pendingBytes > MaxPendingBytes), and a flush is up to the inserted group id; insertion happens only for ids newer than the last delivered one; the immediate-delivery return carries id == cur+1 and advances cur; flushUpTo sorts the collected ids before output, selects exactly cur < id <= max, sets cur = max and then drains consecutive ids advancing cur by one per entry; pending/pendingBytes/curGroupID/initialized are touched only in Push/flushUpTo/Initialize and only with r.mu held. Not decided: the ordering/at-most-once/bounds invariants over push histories (value-level), payload size arithmetic.",
+		Text:      "Decides on all paths of Reorderer.Push/flushUpTo: every insertion into pending is preceded by the subtraction of a replaced entry's payload size and followed in the same block by the addition of the inserted subgroup's size; every removal from pending is paired in the same block with the subtraction of the removed entry's size and with appending that entry to the output (so nothing delivered stays pending and nothing is delivered twice); after an insertion a return without a flush carries both ¬(len(pending) > MaxReordered) and ¬(pendingBytes > MaxPendingBytes), and a flush is up to the inserted group id; insertion happens only for ids newer than the last delivered one; the immediate-delivery return carries id == cur+1 and advances cur; flushUpTo sorts the collected ids before output, selects exactly cur < id <= max, sets cur = max and then drains consecutive ids advancing cur by one per entry; pending/pendingBytes/curGroupID/initialized are touched only in Push/flushUpTo/Initialize and only with r.mu held; a push is ONE critical section: in Push and every function it statically calls, after r.mu has been released (plain Unlock, or a callee that unlocks - e.g. to log without the lock) no reorderer state is accessed again before the function returns, so a decision is never applied to a state another push may have changed in between. Not decided: the ordering/at-most-once/bounds invariants over push histories (value-level), payload size arithmetic.",
 		Note:      "trusted: sync.Mutex, slices.Sort, map semantics; the limit clause relies on the (undecided) invariant that the limits held before the push"})
 	addMutants(
 		Mutant{"C33", "replace-leaks-bytes", "internal/protocols/moq/reorderer/reorderer.go",
@@ -52,6 +52,10 @@ func init() {
 			"case sg.Header.GroupID == r.curGroupID+1 && len(r.pending) == 0:", "case len(r.pending) == 0:", "C33.guard"},
 		Mutant{"C33", "flush-does-not-advance", "internal/protocols/moq/reorderer/reorderer.go",
 			"	r.curGroupID = maxGroupID\n", "", "C33.order"},
+		Mutant{"C33", "lock-dropped-while-logging-before-flush", "internal/protocols/moq/reorderer/reorderer.go",
+			"			r.Parent.Log(logger.Warn, \"too many reordered bytes, flushing\")\n", "			r.mu.Unlock()\n			r.Parent.Log(logger.Warn, \"too many reordered bytes, flushing\")\n			r.mu.Lock()\n", "C33.atomic"},
+		Mutant{"C33", "lock-dropped-while-sorting", "internal/protocols/moq/reorderer/reorderer.go",
+			"	slices.Sort(ids)\n", "	r.mu.Unlock()\n	slices.Sort(ids)\n	r.mu.Lock()\n", "C33.atomic"},
 		Mutant{"C33", "unlocked-push", "internal/protocols/moq/reorderer/reorderer.go",
 			"	r.mu.Lock()\n	defer r.mu.Unlock()\n\n	if !r.initialized {", "	if !r.initialized {", "C33.guarded_by"},
 	)
@@ -67,6 +71,7 @@ func runC33(c *Ctx) {
 		"C33.limits.*: both limit tests on every non-flushing path after an insertion; flush argument is the inserted id. " +
 		"C33.guard.*: path conditions of insertion and of the two direct deliveries. C33.order.*: sort before output, selection predicate, cur updates. " +
 		"C33.writers / C33.guarded_by: state fields written only in Push/flushUpTo/Initialize, accessed under Reorderer.mu (flushUpTo's entry state is summarised from its callers). " +
+		"C33.atomic: no state access is reachable after a release of Reorderer.mu inside Push's static call extent (release/touch summaries over the call graph). " +
 		"NOT decided: the ordering and bound invariants over arbitrary push histories (they are inductive value-level invariants), integer arithmetic."
 	c.Assume = []string{"the limits held before the push (inductive invariant, not decided)", "slices.Sort sorts ascending", "sync.Mutex is a mutual exclusion lock"}
 
@@ -439,6 +444,8 @@ func runC33(c *Ctx) {
 		g += c.guardedBy(p, "C33.guarded_by", la, c33Reord, f, exempt)
 	}
 	c.Floor("C33.guarded_by", g, 8)
+	// one push = one critical section (the lock is not released and re-taken in the middle)
+	c33AtomicRule(c, p, push)
 	// flushUpTo is private to Push
 	got := p.staticCallers(flush)
 	okc := len(got) > 0
